@@ -562,7 +562,15 @@ func (w *Worker) mathExternal(fn *ssa.Function, args []Value) (Value, bool) {
 			} else {
 				zpick = tt.Ite(tt.fpUn(OpFPIsNeg, BoolSort, a), a, b)
 			}
-			return tt.Ite(isn, nanr, tt.Ite(bothZero, zpick, m)), true
+			// Go checks the dominating infinity BEFORE NaN:
+			// Max(x, +Inf) = +Inf and Min(x, -Inf) = -Inf even for x = NaN.
+			dom := math.Inf(1)
+			if n == "Min" {
+				dom = math.Inf(-1)
+			}
+			domc := tt.FPConst(64, dom)
+			isDom := tt.Or(tt.Eq(a, domc), tt.Eq(b, domc))
+			return tt.Ite(isDom, domc, tt.Ite(isn, nanr, tt.Ite(bothZero, zpick, m))), true
 		}
 		// R+: special constants
 		for _, c := range []*Term{a, b} {
